@@ -217,6 +217,7 @@ def can_add(ctx: Ctx, rule: str) -> None:
         has = ("atom", "self.has_interface(interface)")
         same = ("atom", "self._get_network_ip(interface.ip, self.mask_bit) == self.net_ip")
         diffmask = ("not", ("atom", "interface.params['netmask'] == self.netmask"))
+        taken = ("atom", "interface.ip in self.interfaces")
         if norm.implies(conds, has):
             kinds.add("present")
             if v.path.exit != "raise" or PathEnum._raised_name(v.path.exit_node) != "IndexError":
@@ -225,13 +226,25 @@ def can_add(ctx: Ctx, rule: str) -> None:
             kinds.add("mask")
             if v.path.exit != "raise" or PathEnum._raised_name(v.path.exit_node) != "IndexError":
                 problems.append("a same-network interface with a different netmask is not rejected")
+        elif norm.implies(conds, norm.conj([same, taken])):
+            kinds.add("taken")
+            if v.path.exit != "raise" or PathEnum._raised_name(v.path.exit_node) != "IndexError":
+                problems.append("an address already registered for another interface is accepted")
         else:
             kinds.add("answer")
             if v.path.exit != "return" or v.formula_of(v.path.exit_node.value, len(v.steps)) != same:
                 problems.append("the answer is not 'the interface's network address equals the netconfig's'")
-    ctx.record(rule, "TABLE", fref, "already present -> IndexError; same network but other netmask -> IndexError; else returns (network of interface.ip == net_ip)",
-               not problems and kinds == {"present", "mask", "answer"}, {"paths": len(views)},
-               "" if not problems and kinds == {"present", "mask", "answer"} else (problems[0] if problems else f"rows found: {sorted(kinds)}"))
+            elif "taken" not in kinds and not any("interface.ip in self.interfaces" in a for a in norm.atoms_of(conds)):
+                pass
+    # add_interface stores by address: an address that is already a key must be refused, or the second interface silently replaces the first
+    # (which keeps pointing at this netconfig without being registered in it)
+    has_taken_row = "taken" in kinds
+    ctx.record(rule, "TABLE", fref, "already present -> IndexError; same network but other netmask -> IndexError; same network and the address already registered -> IndexError; "
+               "else returns (network of interface.ip == net_ip)",
+               not problems and kinds >= {"present", "mask", "answer"} and has_taken_row, {"paths": len(views), "rows": sorted(kinds)},
+               "" if not problems and kinds >= {"present", "mask", "answer"} and has_taken_row else (
+                   problems[0] if problems else ("two interfaces with the same address are accepted into one netconfig: add_interface stores by address, the second replaces the first, "
+                                                 "which still points at the netconfig but is no longer registered in it" if not has_taken_row else f"rows found: {sorted(kinds)}")))
     f = ctx.repo.func(f"{VC}.has_interface")
     rets = [r for r in ast.walk(f.node) if isinstance(r, ast.Return)]
     from ..canon import parse_expr
@@ -275,7 +288,9 @@ def arithmetic_shape(ctx: Ctx, rule: str) -> None:
     rets = [r for r in ast.walk(f.node) if isinstance(r, ast.Return)]
     ok = (defs.get("source_ip") == "ipaddress.IPv4Address(ip)"
           and defs.get("source_part") == "int(source_ip) - int(ipaddress.IPv4Address(str(self.net_ip)))"
-          and defs.get("target_iface") == "ipaddress.ip_interface('%s/%s' % (nat_ip, self.mask_bit))"
+          # the target prefix: the netconfig's own, or an explicitly given one falling back to it
+          and (defs.get("target_iface") == "ipaddress.ip_interface('%s/%s' % (nat_ip, self.mask_bit))"
+               or (len(f.params()) >= 4 and defs.get("target_iface") == f"ipaddress.ip_interface('%s/%s' % (nat_ip, {f.params()[3]} or self.mask_bit))"))
           and defs.get("target_part") == "int(target_iface.network.network_address)"
           and defs.get("translated_ip") == "ipaddress.IPv4Address(source_part + target_part)"
           and len(rets) == 1 and ast.unparse(rets[0].value) == "str(translated_ip)")
@@ -356,8 +371,70 @@ def optional_not_stored(ctx: Ctx, rule: str) -> None:
                {"unguarded": bad}, "" if not bad else f"{bad[0][0]}: `{bad[0][1]}` also runs when the argument is None (= keep): the parameter is erased while the netconfig keeps its value")
 
 
+def renumbering(ctx: Ctx, rule: str) -> None:
+    """change_network_address rebuilds the netconfig from a copy of an old interface's parameters: every address the netconfig derives from
+    them and validates against the (new) subnet must be moved along, and a sentinel that is not an address must not be."""
+    NETF = "vmnet/network.py:VMNetwork.change_network_address"
+    fn = ctx.repo.func(NETF)
+    ctx.touch(NETF)
+    fi = ctx.repo.func(f"{VC}.from_interface")
+    ctx.touch(fi.ref)
+    # what from_interface reads from the interface parameters, with defaults
+    reads = {}
+    for c in calls_in(fi.node):
+        if call_name(c) == "get" and ast.unparse(c.func.value) == "interface.params" and c.args and isinstance(c.args[0], ast.Constant):
+            reads[c.args[0].value] = ast.unparse(c.args[1]) if len(c.args) > 1 else None
+    fv = ctx.repo.func(f"{VC}.validate")
+    validated = "host_ip" in ast.unparse(fv.node)
+    from ..facts import dict_writes
+
+    written = {}
+    for k, v_, site in dict_writes(fn.node, "nic_params"):
+        if isinstance(k, ast.Constant):
+            written.setdefault(k.value, []).append(v_)
+    need = [k for k in ("ip", "ip_provider") + (("host",) if "host" in reads and validated else ())]
+    missing = [k for k in need if k not in written]
+    ctx.record(rule, "PROV", NETF, f"the rebuilt interface parameters move every address the netconfig takes from them ({', '.join(need)}) into the new network",
+               not missing and len(need) == 3, {"from_interface_reads": sorted(reads), "rewritten": sorted(written)},
+               "" if not missing and len(need) == 3 else f"change_network_address leaves {missing} of the copied interface parameters in the old network: from_interface() re-reads it and validate() "
+               "raises (after the netconfig was already unregistered and its interfaces moved)")
+    # the default of the gateway is a sentinel, not a host of the network
+    sentinel = reads.get("ip_provider")
+    why = ""
+    if sentinel is None:
+        why = "from_interface no longer has a default for ip_provider"
+    else:
+        views = function_views(ctx, NETF, names_interesting({"translate_address", "gateway", "nic_params"}))
+        n = 0
+        for v in views:
+            for i, c in v.calls(lambda c: call_name(c) == "translate_address" and c.args and "gateway" in ast.unparse(c.args[0])):
+                n += 1
+                prem = v.premise(i, 0, inner=c)
+                if not norm.implies(prem, norm.neg(("atom", f"netconfig.gateway == {sentinel}"))):
+                    why = (f"the gateway is translated like a host address also when it is the default {sentinel} (= no gateway): the netconfig gets a gateway such as 0.2.0.0, "
+                           "or the translation fails for a numerically lower network")
+        if n == 0 and not why:
+            why = "the gateway is not translated at all"
+    ctx.record(rule + "g", "GUARD", NETF, f"the gateway is translated only if it is not the 'no gateway' default {sentinel}", not why, {}, why)
+    # a new netmask changes where the host part starts: the addresses must be translated with the NEW prefix
+    ft = ctx.repo.func(f"{VC}.translate_address")
+    ctx.touch(ft.ref)
+    takes_mask = len(ft.params()) >= 4
+    tcalls = [c for c in calls_in(fn.node) if call_name(c) == "translate_address"]
+    pass_mask = bool(tcalls) and all(any("new_mask" in ast.unparse(a) for a in list(c.args[2:]) + [k.value for k in c.keywords]) for c in tcalls)
+    # or: the new mask is installed in the netconfig before anything is translated
+    first_t = min((c.lineno for c in tcalls), default=0)
+    early = any(isinstance(s_, ast.Assign) and "netmask" in ast.unparse(s_.targets[0]) and "netconfig" in ast.unparse(s_.targets[0]) and s_.lineno < first_t for s_ in ast.walk(fn.node))
+    okm = (takes_mask and pass_mask) or early
+    ctx.record(rule + "m", "PROV", NETF, "with a new netmask the interface, gateway and host addresses are translated with the new prefix", okm,
+               {"translate_calls": [ast.unparse(c)[:80] for c in tcalls]},
+               "" if okm else "translate_address always uses the netconfig's current prefix and is called before new_mask is applied: /16 -> 192.168.5.1/24 puts host offset 1 at "
+               "192.168.0.1 and validate() raises (interface not in the netconfig 192.168.5.0)")
+
+
 def run(ctx: Ctx) -> None:
     ctx.call(optional_not_stored, "8")
+    ctx.call(renumbering, "9")
     ctx.call(reattach_sequence, "4o")
     ctx.call(integrate, "1")
     ctx.call(add_interface, "2")
